@@ -1,0 +1,13 @@
+//go:build verif && amd64 && go1.17 && !go1.27
+// +build verif,amd64,go1.17,!go1.27
+
+package verifx
+
+import (
+	"reflect"
+
+	"github.com/bytedance/sonic/internal/decoder/jitdec"
+)
+
+// DecoderProgram is the jitdec program of a destination type with every operand printed.
+func DecoderProgram(vt reflect.Type) (string, error) { return jitdec.VerifDumpProgram(vt) }
